@@ -70,7 +70,7 @@ SAFE_PROBES = ["print(str.upper('a'))\n", "str.upper(5)\n", "list(map(globals, [
                "float('x')\n", "float([])\n", "complex('x')\n", "hash([])\n", "getattr(1, 2)\n", "setattr(1, 'a', 2)\n", "delattr(1, 'real')\n", "x = 1\ndel x\ndel x\n", "def f(): pass\nf(1)\n", "def f(a): pass\nf()\n", "def f(a): pass\nf(a=1, b=2)\n", "def f(a): pass\nf(1, a=1)\n",
                "f = lambda: 1\nf(*5)\n", "f = lambda: 1\nf(**5)\n", "f = lambda **k: k\nf(**{1: 2})\n", "class K(5): pass\n", "class K(int, str): pass\n", "class K(metaclass=5): pass\n", "raise 5\n", "raise ValueError from 5\n", "try:\n    pass\nexcept 5:\n    pass\n",
                "try:\n    raise ValueError\nexcept 5:\n    pass\n", "with 5: pass\n", "for x in 5: pass\n", "a, b = 5\n", "a, b = [1]\n", "a, *b = 5\n", "import sys\nsys.exit('x')\n", "import nonexistent\n", "from sys import nonexistent\n", "x = yield_ = 1\nx.y.z\n",
-               "assert False, 1/0\n", "print(end=5)\n", "print(sep=5)\n", "print(file=5)\n", "open()\n", "open(5)\n", "open('/nonexistent/x')\n", "exec(5)\n", "eval(5)\n", "eval('(')\n", "compile(1, 2, 3)\n", "compile('1', 'f', 'bad')\n", "__import__(5)\n", "globals(1)\n", "locals(1)\n", "vars(1)\n", "dir(1, 2)\n",
+               "assert False, 1/0\n", "print(end=5)\n", "print(sep=5)\n", "print(file=5)\n", "open()\n", "open(5)\n", "open('/nonexistent/x')\n", "exec(5)\n", "eval(5)\n", "eval('(')\n", "compile(1, 2, 3)\n", "compile('1', 'f', 'bad')\n", "__import__(5)\n", "globals(1)\n", "locals(1)\n", "vars(1)\n", "dir(1, 2)\n", "dict([('a',)])\n", "dict([1])\n", "dict([(1, 2, 3)])\n", "dict(5)\n", "dict([('a', 1)], b=2)\n",
                "slice()\n", "slice(1, 2, 3, 4)\n", "[1, 2, 3][slice('a')]\n", "[1, 2, 3][::0]\n", "x = [1, 2, 3]\nx[::2] = [1]\n", "x = [1]\nx[5] = 1\n", "x = (1,)\nx[0] = 1\n", "x = 'a'\nx[0] = 'b'\n", "del 'a'[0]\n", "x = {}\ndel x['a']\n", "x = {}\nx[[]] = 1\n", "set([[]])\n", "{[]: 1}\n",
                "import math\nmath.sqrt(-1)\n", "import math\nmath.sqrt('a')\n", "import math\nmath.log(0)\n", "import math\nmath.factorial(-1)\n", "import time\ntime.sleep('a')\n", "import os\nos.getenv(5)\n", "import string\nstring.nonexistent\n"]
 
@@ -98,6 +98,22 @@ def reentrancy_probes():
                  "class I:\n    def __call__(self): return self()\ntry:\n    I().x\nexcept AttributeError: pass\n", "class I:\n    def __enter__(self): return 1 // 0\n    def __exit__(self, *a): pass\nwith I(): pass\n", "class I:\n    def __enter__(self): return self\nwith I(): pass\n",
                  "class I:\n    def __enter__(self): return self\n    def __exit__(self): pass\nwith I(): pass\n", "class I:\n    def __del__(self): 1 // 0\nI()\n", "class I:\n    __slots__ = 5\n", "class I(Exception):\n    def __init__(self): pass\nraise I\n"]:
         out.append(body)
+    return out
+
+def setter_probes():
+    """special attributes of functions, classes, instances and modules set to unsuitable values, then used"""
+    out = []
+    pre = ("def outer():\n    v = 1\n    def inner(a=2):\n        return v + a\n    return inner\nclo = outer()\ndef plain(a=3):\n    return a\n"
+           "def gen():\n    yield 1\nclass K:\n    def m(self): return 1\nk = K()\n")
+    vals = ["clo.__code__", "plain.__code__", "gen.__code__", "K.m.__code__", "None", "5", "'x'", "(1,)", "(1, 2, 3)", "{}", "[]", "plain", "K", "k", "clo.__closure__" , "(lambda: 0).__code__"]
+    attrs = ["__code__", "__defaults__", "__kwdefaults__", "__closure__", "__globals__", "__name__", "__qualname__", "__doc__", "__dict__", "__annotations__", "__module__", "__class__", "__bases__", "__mro__"]
+    targets = ["plain", "clo", "gen", "K", "k", "K.m", "k.m", "len", "[].append", "int"]
+    for t in targets:
+        for a in attrs:
+            for v in vals:
+                out.append(pre + "try:\n    %s.%s = %s\nexcept (TypeError, ValueError, AttributeError) as e:\n    pass\n"
+                                 "for call in (lambda: plain(), lambda: clo(), lambda: clo(1), lambda: list(gen()), lambda: K().m(), lambda: k.m(), lambda: repr(%s), lambda: plain(1, 2)):\n"
+                                 "    try:\n        call()\n    except Exception as e:\n        pass\n" % (t, a, v, t))
     return out
 
 def gen_args_cases(rnd, n):
@@ -219,7 +235,9 @@ def check(res):
             if msg not in res.known: res.known.append(msg)
         else: new.append((arity, kind, idx, text))
     # ---- programs
-    probes = [s for _, s, _ in CRASH_PROBES] + SAFE_PROBES + reentrancy_probes()
+    sp = setter_probes()
+    if tier == "quick": sp = [x for i, x in enumerate(sp) if i % 3 == seed % 3 or "__code__" in x.split("try:")[1][:60]]
+    probes = [s for _, s, _ in CRASH_PROBES] + SAFE_PROBES + reentrancy_probes() + sp
     pr = pydiff.run_impl(probes)
     prog_new = []
     for i, (src, r) in enumerate(zip(probes, pr)):
